@@ -79,6 +79,9 @@ Proof.
   - destruct (step l w) as [w1|] eqn:S; [|discriminate]. eapply IH; [|exact H]. eapply L_step; eauto.
 Qed.
 
+Lemma L_reachable s0 sched w : (forall p, s0 <> Bound p) -> run sched (init s0) = Some w -> L w.
+Proof. intros H R. exact (L_run sched _ _ (L_init s0 H) R). Qed.
+
 (* C16_refused_silent: whatever the interleaving, a process whose probe was answered "running" has terminated,
    recorded no run, executed nothing and never touched the socket *)
 Theorem refused_silent s0 sched w p :
